@@ -485,19 +485,19 @@ func (ex *Exec) binop(op token.Token, xt types.Type, x, y string, yt types.Type)
 			return fmt.Sprintf("(not (= %s %s))", x, y)
 		case token.ADD:
 			g.needStrCat()
-			return fmt.Sprintf("(str.cat %s %s)", x, y)
+			return fmt.Sprintf("(st.cat %s %s)", x, y)
 		case token.LSS:
 			g.needStrLt()
-			return fmt.Sprintf("(str.lt %s %s)", x, y)
+			return fmt.Sprintf("(st.lt %s %s)", x, y)
 		case token.GTR:
 			g.needStrLt()
-			return fmt.Sprintf("(str.lt %s %s)", y, x)
+			return fmt.Sprintf("(st.lt %s %s)", y, x)
 		case token.LEQ:
 			g.needStrLt()
-			return fmt.Sprintf("(not (str.lt %s %s))", y, x)
+			return fmt.Sprintf("(not (st.lt %s %s))", y, x)
 		case token.GEQ:
 			g.needStrLt()
-			return fmt.Sprintf("(not (str.lt %s %s))", x, y)
+			return fmt.Sprintf("(not (st.lt %s %s))", x, y)
 		}
 	}
 	bits, signed, isInt := intInfo(xt)
@@ -639,20 +639,27 @@ func (g *Gen) needTdiv() {
 }
 
 func (g *Gen) needStrCat() {
-	g.decl("fn:str.cat", "(declare-fun str.cat (Str Str) Str)")
-	g.decl("ax:str.cat", "(assert (forall ((a Str) (b Str)) (! (= (str.len (str.cat a b)) (+ (str.len a) (str.len b))) :pattern ((str.cat a b)))))")
+	g.decl("fn:st.cat", "(declare-fun st.cat (Str Str) Str)")
+	g.decl("ax:st.cat", "(assert (forall ((a Str) (b Str)) (! (= (st.len (st.cat a b)) (+ (st.len a) (st.len b))) :pattern ((st.cat a b)))))")
 }
 
 func (g *Gen) needStrLt() {
-	g.decl("fn:str.lt", "(declare-fun str.lt (Str Str) Bool)")
-	g.decl("ax:str.lt1", "(assert (forall ((a Str)) (! (not (str.lt a a)) :pattern ((str.lt a a)))))")
-	g.decl("ax:str.lt2", "(assert (forall ((a Str) (b Str) (c Str)) (! (=> (and (str.lt a b) (str.lt b c)) (str.lt a c)) :pattern ((str.lt a b) (str.lt b c)))))")
-	g.decl("ax:str.lt3", "(assert (forall ((a Str) (b Str)) (! (or (= a b) (str.lt a b) (str.lt b a)) :pattern ((str.lt a b)))))")
+	g.decl("fn:st.lt", "(declare-fun st.lt (Str Str) Bool)")
+	g.decl("ax:st.lt1", "(assert (forall ((a Str)) (! (not (st.lt a a)) :pattern ((st.lt a a)))))")
+	g.decl("ax:st.lt2", "(assert (forall ((a Str) (b Str) (c Str)) (! (=> (and (st.lt a b) (st.lt b c)) (st.lt a c)) :pattern ((st.lt a b) (st.lt b c)))))")
+	g.decl("ax:st.lt3", "(assert (forall ((a Str) (b Str)) (! (or (= a b) (st.lt a b) (st.lt b a)) :pattern ((st.lt a b)))))")
 	g.note("string order: uninterpreted strict total order (irreflexive, transitive, total)")
 }
 
 func (ex *Exec) eqTerm(t types.Type, x, y string) string {
 	switch t.Underlying().(type) {
+	case *types.Interface:
+		if y == "(mk-iface 0 0)" {
+			return fmt.Sprintf("(= (i.tag %s) 0)", x)
+		}
+		if x == "(mk-iface 0 0)" {
+			return fmt.Sprintf("(= (i.tag %s) 0)", y)
+		}
 	case *types.Slice:
 		// only comparison with nil is legal in Go
 		if y == "(mk-slice 0 0 0 0)" {
@@ -716,7 +723,7 @@ func (ex *Exec) convert(from, to types.Type, x string) string {
 		if ex.pureMode {
 			unsup("conversion to slice in pure function")
 		}
-		return ex.freshSliceOfLen(nil, to, fmt.Sprintf("(str.len %s)", x))
+		return ex.freshSliceOfLen(nil, to, fmt.Sprintf("(st.len %s)", x))
 	}
 	return fmt.Sprintf("(%s %s)", fn, x)
 }
